@@ -1,0 +1,131 @@
+//go:build verif
+// +build verif
+
+// Contracts for the generated resolvers (property C14), checked by /verif/govc against the code in
+// gen_type_resolver.go, gen_type_predicated_resolver.go, gen_json_resolver.go and gen_resolver_utils.go.
+// Comment-only: this file adds no executable code. The tables ownCallback / ownPredicate / legalCallback /
+// legalPredicate / knownType / implementsOwn / jsonOwnCallback / jsonKnownType (which callback signature
+// belongs to which vocabulary URI + type name) are generated on every run from astool/*.jsonld by
+// /verif/oracle/ontology.py, independently of the generated Go code. The ghost call log (nCalls, callFn,
+// callArg, callErr, callOk, nDelegate, ...) is declared in /verif/spec/47_resolvers.spec.
+package streams
+
+//@ func streams.IsUnmatchedErr
+//@ params err
+//@ [C14] ensures the_three_unmatched_errors: result == (err == streams.ErrPredicateUnmatched || err == streams.ErrUnhandledType || err == streams.ErrNoCallbackMatch)
+
+//@ func streams.NewTypeResolver
+//@ params callbacks
+//@ modifies gK
+//@ [C14] ensures accepts_only_legal_shapes: result1 == nil ==> (forall j Int :: {callbacks[j]} 0 <= j && j < len(callbacks) ==> legalCallback(callbacks[j]))
+//@ [C14] ensures rejects_only_for_an_illegal_shape: result1 != nil ==> 0 <= gK && gK < len(callbacks) && !legalCallback(callbacks[gK])
+//@ [C14] at call errors.New#1: ghost gK = $ri
+//@ [C14] ensures keeps_callbacks_in_order: result1 == nil ==> result0 != nil && result0.callbacks == callbacks
+//@ [C14] ensures no_resolver_on_error: result1 != nil ==> result0 == nil
+//@ loop 1 [C14] invariant all_legal_so_far: forall j Int :: {callbacks[j]} 0 <= j && j <= $ri ==> legalCallback(callbacks[j])
+
+//@ func (streams.TypeResolver).Resolve
+//@ params this, ctx, o
+//@ let T = typeIndex(o)
+//@ let OT = callbackTagOf(T)
+//@ [C14] requires value_given: o != nil
+//@ modifies nCalls, callFn, callArg, callErr, gK
+//@ [C14] ensures at_most_one_callback: nCalls == old(nCalls) || nCalls == old(nCalls) + 1
+//@ [C14] ensures invoked_is_a_registered_callback: nCalls == old(nCalls) + 1 ==> 0 <= gK && gK < len(this.callbacks) && callFn == this.callbacks[gK].pl
+//@ [C14] ensures invoked_is_for_own_type: nCalls == old(nCalls) + 1 ==> this.callbacks[gK].dyn == OT && T != 0
+//@ [C14] ensures invoked_is_first_such: nCalls == old(nCalls) + 1 ==> (forall j Int :: {this.callbacks[j]} 0 <= j && j < gK ==> this.callbacks[j].dyn != OT)
+//@ [C14] ensures value_passed_and_error_returned_unchanged: nCalls == old(nCalls) + 1 ==> callArg == o && result == callErr
+//@ [C14] ensures own_callback_is_invoked: T != 0 && implementsIndexed(o, T) && (exists j Int :: {this.callbacks[j]} 0 <= j && j < len(this.callbacks) && this.callbacks[j].dyn == OT) ==> nCalls == old(nCalls) + 1
+//@ [C14] ensures unmatched_without_own_callback: T != 0 && nCalls == old(nCalls) && implementsIndexed(o, T) ==> result == streams.ErrNoCallbackMatch
+//@ [C14] ensures unmatched_for_undefined_type: T == 0 ==> nCalls == old(nCalls) && (result == streams.ErrUnhandledType || result == streams.ErrNoCallbackMatch)
+//@ loop 1 [C14] invariant nothing_invoked_yet: nCalls == old(nCalls)
+//@ loop 1 [C14] invariant no_own_callback_so_far: forall j Int :: {this.callbacks[j]} 0 <= j && j <= $ri ==> this.callbacks[j].dyn != OT
+//@ loop 1 [C14] invariant type_is_known_after_first_pass: $ri >= 0 ==> T != 0
+//@ [C14] at call dyn.*#*: ghost gK = $ri
+
+//@ dyncall (streams.TypeResolver).Resolve.* satisfies resolver-callback
+
+//@ func streams.NewTypePredicatedResolver
+//@ params delegate, predicate
+//@ [C14] ensures rejects_other_shapes: result1 == nil <==> legalPredicate(predicate)
+//@ [C14] ensures keeps_delegate_and_predicate: result1 == nil ==> result0 != nil && result0.delegate == delegate && result0.predicate == predicate
+//@ [C14] ensures no_resolver_on_error: result1 != nil ==> result0 == nil
+
+//@ func (streams.TypePredicatedResolver).Apply
+//@ params this, ctx, o
+//@ let T = typeIndex(o)
+//@ let OT = predicateTagOf(T)
+//@ [C14] requires value_given: o != nil
+//@ modifies nCalls, callFn, callArg, callErr, callOk, nDelegate, delegateArg, delegateErr
+//@ [C14] ensures at_most_one_predicate_call: nCalls == old(nCalls) || nCalls == old(nCalls) + 1
+//@ [C14] ensures invoked_only_if_written_for_own_type: nCalls == old(nCalls) + 1 ==> T != 0 && this.predicate.dyn == OT && callFn == this.predicate.pl && callArg == o
+//@ [C14] ensures own_predicate_is_invoked: T != 0 && implementsIndexed(o, T) && this.predicate.dyn == OT ==> nCalls == old(nCalls) + 1
+//@ [C14] ensures unmatched_when_predicate_is_for_another_type: T != 0 && this.predicate.dyn != OT ==> nCalls == old(nCalls) && nDelegate == old(nDelegate) && !result0 && result1 == streams.ErrPredicateUnmatched
+//@ [C14] ensures unmatched_for_undefined_type: T == 0 ==> nCalls == old(nCalls) && nDelegate == old(nDelegate) && !result0 && result1 == streams.ErrUnhandledType
+//@ [C14] ensures predicate_error_returned_unchanged: nCalls == old(nCalls) + 1 && callErr != nil ==> result1 == callErr && result0 == callOk && nDelegate == old(nDelegate)
+//@ [C14] ensures delegate_resolves_when_predicate_passes: nCalls == old(nCalls) + 1 && callErr == nil && callOk ==> nDelegate == old(nDelegate) + 1 && delegateArg == o && result0 && result1 == delegateErr
+//@ [C14] ensures nothing_resolved_when_predicate_fails: nCalls == old(nCalls) + 1 && callErr == nil && !callOk ==> nDelegate == old(nDelegate) && !result0 && result1 == nil
+//@ [C14] ensures delegate_only_after_passing_predicate: nCalls == old(nCalls) ==> nDelegate == old(nDelegate)
+
+//@ dyncall (streams.TypePredicatedResolver).Apply.* satisfies resolver-predicate
+
+//@ func streams.NewJSONResolver
+//@ params callbacks
+//@ modifies gK
+//@ [C14] ensures accepts_only_legal_shapes: result1 == nil ==> (forall j Int :: {callbacks[j]} 0 <= j && j < len(callbacks) ==> legalCallback(callbacks[j]))
+//@ [C14] ensures rejects_only_for_an_illegal_shape: result1 != nil ==> 0 <= gK && gK < len(callbacks) && !legalCallback(callbacks[gK])
+//@ [C14] at call errors.New#1: ghost gK = $ri
+//@ [C14] ensures keeps_callbacks_in_order: result1 == nil ==> result0 != nil && result0.callbacks == callbacks
+//@ [C14] ensures no_resolver_on_error: result1 != nil ==> result0 == nil
+//@ loop 1 [C14] invariant all_legal_so_far: forall j Int :: {callbacks[j]} 0 <= j && j <= $ri ==> legalCallback(callbacks[j])
+
+// handleFn, the closure inside JSONResolver.Resolve that handles one "type" string.
+//@ func (streams.JSONResolver).Resolve$1
+//@ params typeString
+//@ let T = jsonTypeIndex(typeString, aliasMap)
+//@ let OT = callbackTagOf(T)
+//@ modifies nCalls, callFn, callArg, callErr, gK, decodedBy, gDecoded, gDecErr, nDecode
+//@ [C14] ensures at_most_one_callback: nCalls == old(nCalls) || nCalls == old(nCalls) + 1
+//@ [C14] ensures invoked_is_a_registered_callback_for_own_type: nCalls == old(nCalls) + 1 ==> 0 <= gK && gK < len(this.callbacks) && callFn == this.callbacks[gK].pl && T != 0 && this.callbacks[gK].dyn == OT
+//@ [C14] ensures invoked_is_first_such: nCalls == old(nCalls) + 1 ==> (forall j Int :: {this.callbacks[j]} 0 <= j && j < gK ==> this.callbacks[j].dyn != OT)
+//@ [C14] ensures decoded_as_own_type_then_passed_and_error_returned_unchanged: nCalls == old(nCalls) + 1 ==> nDecode == old(nDecode) + 1 && gDecErr == nil && callArg == gDecoded && decodedBy == deserFn(T) && result == callErr
+//@ [C14] ensures own_callback_is_invoked: T != 0 && gDecErr == nil && (exists j Int :: {this.callbacks[j]} 0 <= j && j < len(this.callbacks) && this.callbacks[j].dyn == OT) ==> nCalls == old(nCalls) + 1
+//@ [C14] ensures unmatched_without_own_callback: T != 0 && nCalls == old(nCalls) && gDecErr == nil ==> result == streams.ErrNoCallbackMatch
+//@ [C14] ensures decode_error_returned: T != 0 ==> nDecode == old(nDecode) + 1 && (gDecErr != nil ==> nCalls == old(nCalls) && result == gDecErr)
+//@ [C14] ensures unmatched_for_undefined_type: T == 0 ==> nCalls == old(nCalls) && nDecode == old(nDecode) && result == streams.ErrUnhandledType
+//@ loop * [C14] invariant nothing_invoked_yet: nCalls == old(nCalls)
+//@ loop * [C14] invariant no_own_callback_so_far: forall j Int :: {this.callbacks[j]} 0 <= j && j <= $ri ==> this.callbacks[j].dyn != OT
+//@ [C14] at call dyn.fn#*: ghost gK = $ri
+
+//@ dyncall (streams.JSONResolver).Resolve$1.fn satisfies resolver-callback
+//@ dyncall (streams.JSONResolver).Resolve$1.value satisfies json-deserialiser
+
+// toAliasMap (vocabulary URI -> alias, from "@context") is not under contract: which alias a document
+// declares is taken as given; C14 is stated relative to the map it returns.
+//@ func streams.toAliasMap
+//@ params i
+//@ trusted
+//@ modifies MD:String:String, MV:String:String
+//@ ensures result != nil
+
+//@ func (streams.JSONResolver).Resolve
+//@ params this, ctx, m
+//@ modifies nCalls, callFn, callArg, callErr, gK, decodedBy, gDecoded, gDecErr, nDecode, gAlias, gTS, MD:String:String, MV:String:String
+//@ [C14] at call streams.toAliasMap#1: ghost gAlias = $res0
+//@ [C14] at call dyn.handleFn#*: ghost gTS = $arg0
+//@ [C14] ensures at_most_one_callback: nCalls == old(nCalls) || nCalls == old(nCalls) + 1
+//@ [C14] ensures invoked_is_a_registered_callback_for_the_type_named: nCalls == old(nCalls) + 1 ==> 0 <= gK && gK < len(this.callbacks) && callFn == this.callbacks[gK].pl && jsonTypeIndex(gTS, cast(gAlias, "map[string]string")) != 0 && this.callbacks[gK].dyn == callbackTagOf(jsonTypeIndex(gTS, cast(gAlias, "map[string]string")))
+//@ [C14] ensures invoked_is_first_such: nCalls == old(nCalls) + 1 ==> (forall j Int :: {this.callbacks[j]} 0 <= j && j < gK ==> this.callbacks[j].dyn != this.callbacks[gK].dyn)
+//@ [C14] ensures callback_error_returned_unchanged: nCalls == old(nCalls) + 1 ==> result == callErr
+//@ [C14] ensures single_type_string_is_the_type_named: has(m, "type") && has(m, "@context") && m["type"].dyn == typetag("string") && nCalls == old(nCalls) + 1 ==> gTS == unboxstr(m["type"])
+//@ [C14] ensures unmatched_for_undefined_single_type: has(m, "type") && has(m, "@context") && m["type"].dyn == typetag("string") && jsonTypeIndex(unboxstr(m["type"]), cast(gAlias, "map[string]string")) == 0 ==> nCalls == old(nCalls) && result == streams.ErrUnhandledType
+//@ [C14] ensures missing_type_or_context_is_an_error: !has(m, "type") || !has(m, "@context") ==> nCalls == old(nCalls) && result != nil
+//@ loop 1 [C14] invariant nothing_invoked_yet: nCalls == old(nCalls)
+
+// ToType: a JSONResolver built from one callback per type (each stores its argument in the result).
+//@ func streams.ToType
+//@ params c, m
+//@ modifies nCalls, callFn, callArg, callErr, gK, decodedBy, gDecoded, gDecErr, nDecode, gAlias, gTS, MD:String:String, MV:String:String
+//@ [C14] at call streams.NewJSONResolver#1: assert every_callback_has_a_legal_shape: forall j Int :: {$arg0[j]} 0 <= j && j < len($arg0) ==> legalCallback($arg0[j])
+//@ [C14] ensures at_most_one_callback: nCalls == old(nCalls) || nCalls == old(nCalls) + 1
+//@ [C14] ensures resolver_error_returned_unchanged: nCalls == old(nCalls) + 1 ==> result1 == callErr
